@@ -15,7 +15,7 @@
                or whose NewSeqNo is below the expected number
      D24       (single_resend) a Logon arriving while RESENDREQ_AWAITING (see C04_logon_dup_resend_refuted) *)
 From Coq Require Import ZArith NArith List Bool Sorting.Sorted.
-From AF Require Import Base.Sx Py.Str Fix.Session Lemmas.SessionL Lemmas.SessionC04L Lemmas.SessionC11L Lemmas.SessionC05L.
+From AF Require Import Base.Sx Py.Str Fix.Session Fix.SessionHooks Lemmas.SessionL Lemmas.SessionC04L Lemmas.SessionC11L Lemmas.SessionC05L Lemmas.SessionHooksL.
 Import ListNotations.
 Open Scope Z_scope.
 
@@ -170,3 +170,41 @@ Example C04_logout_gap_not_counted :
   nin w = 2 /\ j_in (jr w) = [1] /\ st w = ST_DISC_WCONN.
 Proof. exact logout_gap_not_counted. Qed.
 Print Assumptions C04_logout_gap_not_counted.
+
+(* --- application callbacks that RAISE (Fix/SessionHooks.v: `hr m = Some x` - on_message(m) records m and raises x).
+   "whatever the peer sends" must not depend on the application's callback succeeding: the exception is swallowed by
+   `except Exception`, and `_finalize_message` runs in the `finally:` clause.  For EVERY hook behaviour, every history
+   and every start state the raising variant computes exactly what `run` computes (results, worlds, events) ... *)
+Theorem C04_raising_callback_is_invisible : forall hr c h w, run_h hr c w h = run c w h.
+Proof. exact run_h_eq. Qed.
+Print Assumptions C04_raising_callback_is_invisible.
+
+(* ... so a message whose callback failed is still counted: it is the only delivery of its step and the expected
+   number afterwards is its number + 1 (it can never be handed over a second time) *)
+Theorem C04_deliver_exactly_expected_raising : forall hr c h w,
+  Forall (fun s => delivered s = [] \/
+                   (delivered s = [nin (s_before s)] /\ nin (s_after s) = nin (s_before s) + 1)) (run_h hr c w h).
+Proof. exact run_h_deliver_exact. Qed.
+Print Assumptions C04_deliver_exactly_expected_raising.
+
+Theorem C04_inorder_raising_partial : forall hr c h w,
+  Forall (fun s => ~ D11_step c s) (run_h hr c w h) ->
+  Forall (fun n => nin w <= n) (flat_map delivered (run_h hr c w h))
+  /\ StronglySorted Z.lt (flat_map delivered (run_h hr c w h))
+  /\ Forall (fun s => forall n, In n (delivered s) ->
+                      n = nin (s_before s) /\ nin (s_after s) = n + 1 /\ delivered s = [n]) (run_h hr c w h).
+Proof. exact run_h_inorder. Qed.
+Print Assumptions C04_inorder_raising_partial.
+
+(* non-vacuity: Logon(1), 2, 3, 4 with a callback that fails EVERY time: three failed callbacks, each message handed
+   over once, counted and journaled, no ResendRequest, the session stays ACTIVE *)
+Example C04_failing_callbacks_counted :
+  let r := run_h always_fails cfg0 w_acceptor h_fail in
+  flat_map delivered r = [2; 3; 4]
+  /\ length (failed_callbacks always_fails (trace r)) = 3%nat
+  /\ resends (trace r) = []
+  /\ nin (final cfg0 w_acceptor h_fail) = 5
+  /\ j_in (jr (final cfg0 w_acceptor h_fail)) = [1; 2; 3; 4]
+  /\ st (final cfg0 w_acceptor h_fail) = ST_ACTIVE.
+Proof. exact failing_callbacks_example. Qed.
+Print Assumptions C04_failing_callbacks_counted.
